@@ -44,6 +44,25 @@ def _clear_caches():
     importlib.import_module('prysm.polynomials.jacobi').recurrence_abc.cache_clear()
 
 
+def cold_state():
+    """Put prysm.polynomials back into its import-time state by re-executing its modules (dependencies first): every module-level
+    cache -- dict, lru_cache, mutable default argument, function attribute -- is empty afterwards, whatever it is called and
+    wherever it lives.  Call histories start from here, so 'the first call with these orders was single precision' is really
+    the first call, whatever the rest of the run (or another property in the same process) evaluated before."""
+    import importlib
+    import sys
+    pre = 'prysm.polynomials.'
+    mods = {m: sys.modules[m] for m in sorted(sys.modules) if m.startswith(pre) and sys.modules[m] is not None}
+    deps = {m: {getattr(v, '__module__', None) for v in vars(mod).values() if callable(v)} & (set(mods) - {m}) for m, mod in mods.items()}
+    done = []
+    while len(done) < len(mods):
+        ready = [m for m in mods if m not in done and deps[m] <= set(done)] or [m for m in mods if m not in done][:1]
+        for m in ready:
+            importlib.reload(mods[m])
+            done.append(m)
+    importlib.reload(sys.modules['prysm.polynomials'])
+
+
 # ------------------------------------------------------------------------------------------------
 # families: how to call prysm, how to ask the driver, domain
 # ------------------------------------------------------------------------------------------------
@@ -86,21 +105,31 @@ SEQS = {
 SEQ_LISTS = [[3], [0, 1, 3], [1, 3, 5], [0, 1, 2, 3, 4, 5], [2, 7, 12], [4, 5, 9], [0, 6], [1, 2, 8, 11]]
 
 
-def seq_textbook(p, fam, k, ns, pts):
-    """family evaluated through its *_seq routine vs the textbook definition -> None or a description"""
+def seq_textbook(p, fam, k, ns, pts, history=False, tol=1e-8):
+    """family evaluated through its *_seq routine vs the textbook definition -> None or a description.
+    history=True: from the import-time state of the package (cold_state), the same orders are first evaluated on float32, integer
+    and 2-D float32 coordinates; the double precision call that is compared comes last"""
     tb = np.array([[textbook(fam, n, k, Fr(float(x))) for x in pts] for n in ns], dtype=object)
     if any(v is None for v in tb.ravel()):
         return None
     try:
+        if history:
+            cold_state()
+            pts = np.asarray(pts, dtype=float)
+            SEQS[fam](p, list(ns), k, pts.astype(np.float32))
+            SEQS[fam](p, list(ns), k, np.asarray(np.round(pts), dtype='int64'))
+            SEQS[fam](p, list(ns), k, np.resize(pts, (2, 3)).astype(np.float32))
         out = np.asarray(SEQS[fam](p, list(ns), k, np.asarray(pts, dtype=float)), dtype=float)
     except Exception as ex:       # noqa
         return f'{fam} seq routine raised {type(ex).__name__}: {ex}'
     tb = tb.astype(float)
     if out.shape != tb.shape:
         return f'{fam} seq routine returned shape {out.shape}, expected {tb.shape}'
-    bad = [int(n) for i, n in enumerate(ns) if not close(out[i], tb[i], 1e-8)]
+    bad = [int(n) for i, n in enumerate(ns) if not close(out[i], tb[i], tol)]
     if bad:
-        return f'{fam} evaluated through its *_seq routine on orders {list(ns)}: rows for orders {bad} differ from the textbook definition'
+        i = list(ns).index(bad[0])
+        return (f'{fam} evaluated through its *_seq routine on orders {list(ns)}' + (' after float32 / integer / 2-D calls with the same orders' if history else '') +
+                f': rows for orders {bad} differ from the textbook definition (order {bad[0]}: {out[i].tolist()} vs {tb[i].tolist()})')
     return None
 
 
@@ -124,6 +153,11 @@ def zern_seq_textbook(p, nms, r, t, norm):
 
 JAC_PARAMS = [(-0.5, -0.5), (0.5, 0.5), (-0.5, 0.5), (0.5, -0.5), (0.0, 0.0), (1.0, 0.0), (2.3, -0.9), (0.0, 4.0),
               (0.25, -0.25), (-0.25, -0.75), (-0.5, 0.0), (3.0, 2.0)]      # includes alpha+beta in {0,-1}
+# the lines of parameter space where the DLMF 18.9.2 coefficients are 0/0 at n = 0 (alpha+beta = 0 and alpha+beta = -1), walked
+# systematically with alpha != beta as well as on the symmetric points, + generic neighbours
+SINGULAR_PARAMS = ([(a, -a) for a in (-0.875, -0.75, -0.5, -0.25, -0.125, 0.0, 0.125, 0.25, 0.5, 0.75, 0.875)] +
+                   [(a, -1.0 - a) for a in (-0.9375, -0.875, -0.75, -0.625, -0.5, -0.375, -0.25, -0.125, -0.0625)] + [(-0.9, -0.1), (-0.1, -0.9)] +
+                   [(-0.25, -0.5), (0.25, 0.5), (-0.75, -0.125), (1.0, -0.5), (2.0, 3.0), (0.0, 4.0)])
 LAG_PARAMS = [0.0, 1.0, 1.5, -0.5, 2.3]
 DICK_PARAMS = [0.0, 1.0, -1.0, 0.7, 2.0]
 
@@ -284,6 +318,31 @@ def params_for(fam, rng, extra):
     return [()]
 
 
+def n0_consumers(p, JW, a, b, pts, kmax=4):
+    """the n = 0 coefficients of recurrence_abc through their consumers -> None or a description"""
+    pts = np.asarray(pts, dtype=float)
+    A0, B0, C0 = JW.recurrence_abc(0, a, b)
+    p1 = np.array([textbook('jacobi', 1, (a, b), Fr(float(x))) for x in pts])
+    got = A0 * pts + B0
+    if not close(got, p1):
+        return (f'recurrence_abc(0, {a}, {b}) = ({float(A0)}, {float(B0)}, {float(C0)}): A_0 x + B_0 = {got.tolist()} at x = {pts.tolist()} but '
+                f'P_1^({a},{b})(x) = (alpha+1) + (alpha+beta+2)(x-1)/2 = {p1.tolist()}')
+    for k in range(1, kmax + 1):
+        tb = np.array([textbook('jacobi', k, (a, b), Fr(float(x))) for x in pts])
+        for form, xx in (('1-D', pts), ('0-D', pts[0])):
+            unit = [0.0] * k + [1.0]
+            got = np.asarray(JW.jacobi_sum_clenshaw(unit, a, b, xx), dtype=float)
+            want = tb if form == '1-D' else tb[0]
+            if got.shape != np.shape(want) or not close(got, want):
+                return (f'jacobi_sum_clenshaw with the unit coefficient vector e_{k} (alpha={a}, beta={b}, {form} x) = {got.tolist()} but '
+                        f'P_{k}^({a},{b})(x) = {np.asarray(want).tolist()} at x = {np.asarray(xx).tolist()}')
+            got = np.asarray(JW.jacobi_sum_clenshaw_der(unit, a, b, xx, j=1), dtype=float)
+            if got.shape[:1] != (2,) or not close(got[0][0], want):
+                return (f'jacobi_sum_clenshaw_der with the unit coefficient vector e_{k} (alpha={a}, beta={b}, {form} x): the value row '
+                        f'{np.asarray(got[0][0]).tolist()} is not P_{k}^({a},{b})(x) = {np.asarray(want).tolist()}')
+    return None
+
+
 # ------------------------------------------------------------------------------------------------
 def _coverage_predicates(ctx, p, scale):
     rng = ctx.rng
@@ -304,6 +363,7 @@ def _coverage_predicates(ctx, p, scale):
             ctx.case(f'history:{fam}', case, nontrivial=True, tag='dtype switches')
 
             def hist():
+                cold_state()
                 impl(p, n, k, pts.astype(np.float32))
                 impl(p, n, k, np.asarray(np.round(pts), dtype='int64'))
                 impl(p, n, k, np.resize(pts, (2, 3)).astype(np.float32))
@@ -312,6 +372,32 @@ def _coverage_predicates(ctx, p, scale):
             if out is not _FAILED and not close(out, tb, 1e-8 if fam == 'lag' else TOL):
                 ctx.pred_fail(f'history:{fam}', case, f'{fam}({n}) on float64 points after float32 / integer calls of the same order: '
                               f'{np.asarray(out).tolist()} but the textbook value is {tb}')
+    # the same through the *_seq entry points: the orders are first evaluated in single precision / on integers from the import-time state
+    for fam in SEQS:
+        lo, hi = FAMS[fam][2]
+        plist = params_for(fam, rng, 0)
+        for li, ns in enumerate(SEQ_LISTS[1:1 + scale(3, 7)]):
+            if fam == 'qbfs':
+                ns = sorted({min(n, 3) for n in ns})
+            k = plist[(li + 1) % len(plist)]
+            pts = dyadic(rng, lo, hi, (4,))
+            if fam.startswith('cheby'):
+                pts = np.clip(pts, -63 / 64, 63 / 64)
+            case = {'family': fam, 'ns': list(ns), 'params': list(k), 'points': pts.tolist(), 'history': ['float32', 'int', 'float32 2-D', 'float64']}
+            ctx.case(f'history-seq:{fam}', case, nontrivial=True, tag='dtype switches')
+            d = seq_textbook(p, fam, k, ns, pts, history=True, tol=1e-8 if fam == 'lag' else TOL)
+            if d:
+                ctx.pred_fail(f'history-seq:{fam}', case, d)
+    cold_state()
+    # the n = 0 recurrence coefficients, used the way the library's own consumers use them (jacobi / jacobi_seq start at n = 1 and
+    # never read them): P_1 = A_0 x + B_0, and a Clenshaw sum with a unit coefficient vector is the single polynomial P_k
+    for (a, b) in SINGULAR_PARAMS:
+        pts = np.clip(dyadic(rng, -1, 1, (5,)), -63 / 64, 63 / 64)
+        case = {'family': 'jacobi-n0', 'params': [a, b], 'points': pts.tolist()}
+        ctx.case('textbook:jacobi-n0-coefficients', case, nontrivial=True, tag='a+b=0' if a + b == 0 else 'a+b=-1' if a + b == -1 else 'generic')
+        d = _try(ctx, 'textbook:jacobi-n0-coefficients', case, lambda: n0_consumers(p, JW, a, b, pts))
+        if d is not _FAILED and d:
+            ctx.pred_fail('textbook:jacobi-n0-coefficients', case, d)
     # the weight function the library reports for the Jacobi family, against (1-x)^alpha (1+x)^beta
     for (a, b) in JAC_PARAMS + [(0.0, float(m)) for m in range(1, 7)] + [(float(np.round(rng.uniform(-0.9, 3) * 8) / 8), float(np.round(rng.uniform(-0.9, 3) * 8) / 8)) for _ in range(scale(4, 40))]:
         for lay, x in (('1d', np.clip(dyadic(rng, -1, 1, (6,)), -63 / 64, 63 / 64)), ('2d', np.clip(dyadic(rng, -1, 1, (3, 4)), -63 / 64, 63 / 64)),
@@ -614,8 +700,10 @@ def correspondence(ctx):
     J = importlib.import_module('prysm.polynomials.jacobi')
     Q = importlib.import_module('prysm.polynomials.qpoly')
     lines, meta = [], []
-    for n in range(1, scale(60, 200)):
-        a, b = JAC_PARAMS[n % len(JAC_PARAMS)]
+    PP = JAC_PARAMS + SINGULAR_PARAMS
+    for n, (a, b) in [(n, PP[n % len(PP)]) for n in range(1, scale(60, 200))] + [(n, ab) for ab in PP for n in (0, 1, 2)]:
+        if n == 0 and a + b in (0, -1):
+            continue          # removable singularity of the general form: the special branch is covered by textbook:jacobi-n0-coefficients
         lines.append(f'abc {n} | {C.f2w(a)} {C.f2w(b)}')
         meta.append(('abc', n, a, b))
     for n in range(0, 40):
@@ -941,7 +1029,7 @@ def replay(inp):
         for f in bad[:3]:
             print(f['detail'])
         return bool(bad)
-    if inp.get('item', '').startswith(('dtype:', 'history:', 'textbook:jacobi-weight', 'textbook:xy-meshgrid', 'textbook:hopkins-arrayH', 'textbook:q2d-azimuth')):
+    if inp.get('item', '').startswith(('dtype:', 'history:', 'textbook:jacobi-n0-coefficients', 'textbook:jacobi-weight', 'textbook:xy-meshgrid', 'textbook:hopkins-arrayH', 'textbook:q2d-azimuth')):
         sub = C.Ctx('C07', 'quick', 0)
         _coverage_predicates(sub, p, sub.scale)
         bad = [f for f in sub.pred_failures if f['item'] == inp['item']]
@@ -949,7 +1037,9 @@ def replay(inp):
             print(f['detail'][:300])
         return bool(bad)
     if 'ns' in c:
-        d = seq_textbook(p, c['family'], tuple(c.get('params', [])), c['ns'], np.array(c['points'], dtype=float))
+        hist = inp.get('item', '').startswith('history-seq:')
+        d = seq_textbook(p, c['family'], tuple(c.get('params', [])), c['ns'], np.array(c['points'], dtype=float), history=hist,
+                         tol=(1e-8 if c['family'] == 'lag' else TOL) if hist else 1e-8)
         print(d or 'the *_seq routine equals the textbook definition on this input')
         return bool(d)
     if 'pairs' in c:
@@ -998,7 +1088,9 @@ MANIFEST_ENTRY = {
              'MODELLED AND COMPARED: every evaluator vs the Lean model on Float (1e-9) for orders 0..40, python-scalar/0-D/1-D/2-D/3-D points, '
              'int64/int32/float32 coordinates against the float64 evaluation (pure_call: arguments not modified, second call equal), exactly '
              'on Fraction inputs vs the Rat model where the path has no float; explicit DLMF sums as oracles; every family also through its '
-             '*_seq entry point on gapped order lists; xy with the default cartesian_grid on meshgrids against x^m y^n; hopkins with array H.  '
+             '*_seq entry point on gapped order lists, also as the last call of a float32 / integer / 2-D history started from the import-time state '
+             'of the package; the n = 0 recurrence coefficients through their consumers (A_0 x + B_0 = P_1, Clenshaw sums with unit coefficient '
+             'vectors = P_k) on the singular lines alpha+beta = 0 and alpha+beta = -1 walked with alpha != beta; xy with the default cartesian_grid on meshgrids against x^m y^n; hopkins with array H.  '
              'NOT COVERED: float rounding at very high order (orders are capped at 40 / 25, the numerically meaningful limit is not located), '
              'complex coordinates for the scalar evaluators, cupy/torch backends.'),
     'note': ('Trusted: Lean kernel + propext/Classical.choice/Quot.sound; tools/gen_c07.py (Python statements -> Lean; element-wise NumPy '
